@@ -1,6 +1,7 @@
 package props
 
 import (
+	"errors"
 	"fmt"
 
 	"verif.local/sim/simio"
@@ -113,7 +114,7 @@ func (c19) Run(t *tape.Tape, st *Stats) *Violation {
 		return fail("replay-incomplete", fmt.Sprintf("stream yielded %d bytes (first difference at %d), the source delivered %d", got.N, got.Diff, len(want)))
 	}
 	if ioErr {
-		if src.ErrFired > 0 && got.Err != src.Err() {
+		if src.ErrFired > 0 && !errors.Is(got.Err, src.Err()) {
 			return fail("replay-incomplete", fmt.Sprintf("source failed with %v but the stream ended with %v", src.Err(), got.Err))
 		}
 		if during >= cfg.ErrAt {
